@@ -147,6 +147,9 @@ def only_tokens(ctx, rule):
                 if fs:
                     muts.add(fs[0])
     ctx.check(muts == {"tokens"}, rule, ADJ, "writes-only-tokens", "adjust_mappings writes only self.tokens (sources, names and contents are untouched)", detail=str(sorted(muts)))
+    takes = [bi for bi, t in b.calls() if q.nice(t.get("callee")) == "mem::take" and q.shape(q.arg_expr(b, t, 0)) == "arg1.tokens"]
+    ctx.check(len(takes) == 1 and all(b.dominates(takes[0], r) for r in b.return_blocks()), rule, ADJ, "take:every-path",
+              "the old tokens are taken out of the map on every path (no early return leaves unadjusted tokens behind, e.g. for an empty adjustment)")
     sig = b.sig or ""
     ctx.check("&'b types::SourceMap" in sig or ", &" in sig and "&'b mut" not in sig.split(",")[1] if "," in sig else False, rule, ADJ, "adjustment:immutable", "the adjustment map is borrowed immutably", detail=sig)
 
